@@ -54,7 +54,58 @@ def cases(tier, seed):
             for feats in (True, False):
                 for path in PATHS:
                     out.append({"n": n, "angle": ai, "axis": 1, "pos": "frac", "features": feats, "path": path})
+    # tables written by other tools (or re-ordered by a join / a spreadsheet): the coordinate columns are found by name,
+    # whatever their order in the table, and may carry custom names
+    for order in ("canonical", "xyz", "sorted", "interleaved", "features-first", "reversed"):
+        for names in ("default", "custom"):
+            for via in ("dataframe", "parquet", "csv"):
+                for n in (1, 5):
+                    out.append({"family": "column-order", "order": order, "names": names, "via": via, "n": n})
     return out
+
+
+def _column_order(case):
+    import polars as pl
+
+    from acryo import Molecules
+
+    m = _table({"n": case["n"], "angle": 3, "axis": 1, "pos": "frac", "features": True})
+    df = m.to_dataframe()
+    coord = ["z", "y", "x", "zvec", "yvec", "xvec"]
+    feats = [c for c in df.columns if c not in coord]
+    order = {"canonical": coord + feats, "xyz": ["x", "y", "z", "xvec", "yvec", "zvec"] + feats, "sorted": sorted(df.columns),
+             "interleaved": ["z", "zvec", feats[0], "y", "yvec", "x", "xvec"] + feats[1:], "features-first": feats + coord,
+             "reversed": list(reversed(df.columns))}[case["order"]]
+    df2 = df.select(order)
+    kw = {}
+    if case["names"] == "custom":
+        ren = {"z": "pos_z", "y": "pos_y", "x": "pos_x", "zvec": "rz", "yvec": "ry", "xvec": "rx"}
+        df2 = df2.rename(ren)
+        kw = {"pos_cols": ["pos_z", "pos_y", "pos_x"], "rot_cols": ["rz", "ry", "rx"]}
+    tmp = tempfile.mkdtemp(prefix="vfc13-", dir="/dev/shm" if os.path.isdir("/dev/shm") else None)
+    viol = []
+    sig = lambda what: f"{ID}|column-order|{what}|{case['via']}|names={case['names']}"  # noqa
+    try:
+        if case["via"] == "dataframe":
+            m2 = Molecules.from_dataframe(df2, **kw)
+        elif case["via"] == "parquet":
+            f = os.path.join(tmp, "t.parquet")
+            df2.write_parquet(f)
+            m2 = Molecules.from_file(f, **kw)
+        else:
+            f = os.path.join(tmp, "t.csv")
+            df2.write_csv(f)
+            m2 = Molecules.from_file(f, **kw)
+        tol = 1e-5 if case["via"] == "csv" else 0.0
+        if m2.count() != m.count() or np.abs(m2.pos.astype(np.float64) - m.pos.astype(np.float64)).max() > tol:
+            viol.append((sig("positions"), f"columns stored as {order}: positions {m2.pos.tolist()[:2]} instead of {m.pos.tolist()[:2]}"))
+        elif float((m.rotator.inv() * m2.rotator).magnitude().max()) > 2e-6 + tol:
+            viol.append((sig("orientations"), f"columns stored as {order}: orientations differ by {float((m.rotator.inv() * m2.rotator).magnitude().max()):.3g} rad"))
+        if sorted(m2.features.columns) != sorted(feats) or any(m2.features[c].to_list() != m.features[c].to_list() for c in feats if c in m2.features.columns and m.features[c].dtype != pl.Float32 and case["via"] != "csv"):
+            viol.append((sig("features"), f"columns stored as {order}: feature columns {m2.features.columns}"))
+    finally:
+        shutil.rmtree(tmp, ignore_errors=True)
+    return {"nontrivial": case["order"] != "canonical", "outcome": f"column-order|{'viol' if viol else 'ok'}", "viol": viol}
 
 
 def _table(case):
@@ -87,6 +138,8 @@ def run_case(case):
 
     from acryo import Molecules
 
+    if case.get("family") == "column-order":
+        return _column_order(case)
     m = _table(case)
     path = case["path"]
     tmp = tempfile.mkdtemp(prefix="vfc13-", dir="/dev/shm" if os.path.isdir("/dev/shm") else None)
